@@ -10,6 +10,7 @@ import Driver.Options
 import Driver.Pipeline
 import Driver.Producer
 import Driver.Locks
+import Driver.JsonValid
 open Driver Vflow
 
 /-- driver state: one model template cache per protocol, reset by `new` -/
@@ -40,6 +41,7 @@ def handle (st : DState) (line : String) : DState × String :=
     | some d =>
       let c := CacheFile.loadDoc d
       (if p == "ipfix" then { st with ipfix := c } else { st with nf9 := c }, "loaded " ++ listCache c)
+  | ["jsonvalid", cat, h] => (st, jsonValidLine cat h)
   | ["elem", p, i] => (st, elemLine p i)
   | ["sflow", f, d] => (st, sflowLine f d)
   | ["dissect", p, h] => (st, dissectLine p h)
